@@ -10,21 +10,25 @@ from engine.core import count_lines, log, VERIF
 
 P = "Pixman.Props.C01Float."
 REQUIRED_FLOAT = [P + n for n in [
-    # get_factor table = Render definition (all alphas in [0,1], alpha 0 / 1 edges included)
-    "getFactor_unit", "pdFactors_render", "pdCombine_render", "pdCombine_unit",
-    "pd_no_clamp_premultiplied", "disjoint_general_is_plain_when_disjoint",
+    # get_factor table = Render definition (all alphas in [0,1], alpha 0 / 1 edges included); results in [0,1]
+    "getFactor_unit", "pdFactors_render", "pdCombine_render", "pdCombine_unit", "pd_no_clamp_premultiplied_partial",
     # masks
-    "combineInner_unified_spec", "combineInner_ca_spec",
-    # separable blend modes = PDF formula
-    "blendMultiply_pdf", "blendScreen_pdf", "blendOverlay_pdf", "blendDarken_pdf", "blendLighten_pdf",
-    "blendColorDodge_pdf", "blendColorBurn_pdf", "blendHardLight_pdf", "blendSoftLight_pdf",
-    "blendDifference_pdf", "blendExclusion_pdf", "sepCombineC_pdf", "sepCombineA_unit", "sepCombineC_unit_partial",
+    "combineInner_unified_spec", "combineInner_ca_spec", "combineInner_nomask_spec", "combineInner_opaque_mask",
+    # consistency with the operator simplifications of C09
+    "over_opaque_source_is_src", "saturate_opaque_source_is_over_reverse", "in_opaque_dest_is_src", "out_opaque_dest_is_clear",
+    "xor_opaque_source_is_out", "atop_opaque_source_is_in", "out_reverse_opaque_source_is_clear", "in_reverse_opaque_source_is_dst",
+    "over_translucent_is_not_src",
+    # separable blend modes = PDF formula (alpha > 0), alpha = 0 edges, whole channel, ranges
+    "blendMultiply_pdf", "blendScreen_pdf", "blendOverlay_pdf", "blendDarken_pdf", "blendLighten_pdf", "blendColorDodge_pdf",
+    "blendColorBurn_pdf", "blendHardLight_pdf", "blendSoftLight_pdf", "blendDifference_pdf", "blendExclusion_pdf",
+    "blend_zero_edge", "sepCombineC_pdf", "sepCombineA_unit", "separable_unit", "sepCombineC_unit_partial",
     # HSL helpers
-    "getLum_setLum_noclip", "clipColor_keeps_lum", "setSat_grey", "getSat_setSat", "setSat_spec",
-    "clipColor_spec", "setLum_spec", "hslColor_pdf_partial",
-    # consistency with C09
-    "over_opaque_source_is_src", "saturate_opaque_source_is_over_reverse", "in_opaque_dest_is_src",
-    "xor_opaque_source_is_out", "atop_opaque_source_is_in",
+    "getLum_spec", "channelMin_spec", "channelMax_spec", "getSat_spec", "getLum_shift", "clipColor_keeps_lum",
+    "getLum_setLum_noclip", "getLum_setLum", "setSat_grey", "setSat_spec", "getSat_setSat", "clipColor_spec", "setLum_spec",
+    # homogeneity (premultiplied evaluation = alpha_s*alpha_b x evaluation on un-premultiplied colours); HSL modes = PDF functions
+    "channelMin_scale", "channelMax_scale", "getLum_scale", "getSat_scale", "clipColor_scale", "setLum_scale", "setSat_scale",
+    "blendHslHue_normalised", "blendHslSaturation_normalised", "blendHslColor_normalised", "blendHslLuminosity_normalised",
+    "setLum_spec_unit", "toColor_scale", "lum_unit", "hslBlend_pdf_partial",
 ]]
 
 CONFIGS = [("default", ""), ("general-only", "fast mmx sse2 ssse3")]
@@ -207,6 +211,29 @@ def run_float(ctx, nbatches=None, nstreams=None):
     ctx.extra["float_verdict_histogram"] = dict(hist_verdict)
     ctx.extra["float_requests_per_chain"] = dict(hist_cfg)
     ctx.extra["float_rule"] = RULE
+    ctx.assumptions += [
+        "float_*: IEEE-754 binary32 evaluation is NOT modelled: the Lean model (Pixman.Model.CombineQ) is pixman-combine-float.c over "
+        "exact rationals (FLOAT_IS_ZERO = exact zero test, sqrtf = rational enclosure to 2^-30, 0.3f/0.59f/0.11f = their decimal values); "
+        "the theorems of Pixman.Props.C01Float are about that model; the tie to the library is this tolerance correspondence only "
+        "(level partial for the float-evaluated part)",
+        "float_*: acceptance = library channel within ONE quantisation step of the destination format (n-bit unorm: |u - clamp01(v)(2^n-1)| <= 1; "
+        "sRGB colour code u: to_linear[u-1] <= v <= to_linear[u+1], table regenerated from pixman-access.c; binary32 destinations: step "
+        "taken as 2^-16, relative above 1) of the model value v at the exact inputs (widening modelled exactly: k/(2^n-1), solid k/65535, "
+        "binary32 sources as their exact dyadic value), or at one of the tie-preserving perturbed inputs (source/destination alpha +-2^-20, "
+        "source/destination colour scaled by 1+-2^-20, all 80 combinations, plus mask alpha/colour) -- verdict okp; for binary32 destinations "
+        "also within one step of the interval spanned by those evaluations (okh).  Single colour channels are never perturbed alone: that "
+        "would turn an exactly grey colour into a saturated one and accept a wrong set_sat on greys.  On the unchanged tree no request "
+        "needed okp/okh (see float_verdict_histogram)",
+        "float_*: COLOR_DODGE, COLOR_BURN, SOFT_LIGHT and HSL_* on operands that are not premultiplied colours: allowance 2^-8 when every "
+        "colour is at most 4x its alpha, not judged (verdict skip, counted) beyond that -- the library's binary32 result is dominated by "
+        "cancellation there; the property speaks of premultiplied inputs",
+        "float_*: the Spec oracle (Pixman.Spec.PdfBlend: Render factor table, PDF 32000 blend functions, composited per 11.3.6) is "
+        "evaluated only for operands in [0,1] and, for the PDF modes, premultiplied; HSL with a component-alpha mask is outside the Spec "
+        "(the library deliberately leaves the destination unchanged; the model mirrors that)",
+        "float_*: requests that the operator simplification moves into the 8-bit pipeline (e.g. SATURATE with an opaque source on narrow "
+        "formats) are compared exactly with the narrow model (verdict ok-narrow)",
+        "float_*: no transform, repeat, alpha map, dither, accessors; 1xN images; PIXMAN_yuy2/yv12 and r8g8b8_sRGB not generated",
+    ]
     reported = report(ctx, findings)
     return dict(evaluations=total, distinct_nontrivial=nontrivial, findings=len(findings), violations_reported=reported,
                 verdicts=dict(hist_verdict))
@@ -249,9 +276,12 @@ def replay(ctx, path):
     req.write_text("".join(f"{l} {r}\n" for l, r in zip(batch, il)))
     ctx.pixdrv("compositeq", req, model)
     bad = False
+    want = obj.get("request")
     for l, r, v in zip(batch, il, model.read_text().split("\n")):
-        log(f"  {l}  ->  library {r}   verdict {v}")
-        bad = bad or v.split(" ")[0] in ("BAD", "SPEC", "bad-request")
+        log(f"  {l}  ->  library {r}   verdict {v}" + ("      <- the recorded request" if l == want else ""))
+        # the neighbours of the batch only provide the context of the composite call; the recorded request decides
+        if l == want or want not in batch:
+            bad = bad or v.split(" ")[0] in ("BAD", "SPEC", "bad-request")
     ctx.cov["evaluations"] = len(batch)
     if bad:
         ctx.violation(dict(obj, replayed=True), signature=obj.get("signature"), what=obj.get("what", "replayed failure"), tag="replay")
